@@ -99,6 +99,10 @@ def _call(case, prog, tp, sp):
     dtype = prog.losses[0].dtype
     chunk = {"R": t, "R+1": t + 1}.get(case["chunk"], case["chunk"])
     agg = make_agg(case["agg"], t, dtype)
+    hooked = case.get("sel_seed", 0) % 3 == 0
+    if hooked and agg is not None:
+        # the aggregator is CALLED (nn.Module: forward hooks included): the same hook is registered on the oracle's instance
+        agg.register_forward_hook(lambda mod, inp, out: out * 0.5)
     torch.manual_seed(case["pre_seed"])
     mtl_backward(aggregator=agg, retain_graph=case["retain"], parallel_chunk_size=chunk,
                  **mtl_kwargs(prog, tp, sp, case["feat"]))
@@ -118,7 +122,11 @@ def _compare(case, p1, p2, tp, sp, info=None):
         return {"key": "C02.raises", "what": f"valid mtl_backward call raised {type(e).__name__}: {str(e)[:150]}",
                 "observed": "exception", "expected": "success"}, None
     torch.manual_seed(case["pre_seed"])
-    J, upd = mtl_reference(p2, make_agg(case["agg"], t, dtype))
+    agg2 = make_agg(case["agg"], t, dtype)
+    hooked = case.get("sel_seed", 0) % 3 == 0
+    if hooked and agg2 is not None:
+        agg2.register_forward_hook(lambda mod, inp, out: out * 0.5)
+    J, upd = mtl_reference(p2, agg2)
     if info is not None:
         shared_now = {id(s) for s in p2.shared}
         info["task_updates"] = sum(1 for k, u in upd.items() if k not in shared_now and bool((u != 0).any()))
